@@ -209,10 +209,15 @@ Section oracles.
                 if String.eqb (fst o) n then [] else snd (snd o)) m.
 
   (* C06: the executable invariant *)
-  Definition inv_msgs (live : value) (m : list (string * (string * bool * list path))) : list string :=
+  (* [inherited]: owned paths that were already absent from the object before the step (a
+     deviation is reported at the step that creates it, not at every later state) *)
+  Definition dangling_paths (live : value) (m : list (string * (string * bool * list path))) : list path :=
+    flat_map (fun o : string * (string * bool * list path) =>
+                filter (fun p => negb (present s tr live p)) (snd (snd o))) m.
+
+  Definition inv_msgs_from (inherited : list path) (live : value) (m : list (string * (string * bool * list path))) : list string :=
     chk (conforms s tr true live) "prop C06 live object is valid under its schema" @@
-    (let dangling := flat_map (fun o : string * (string * bool * list path) =>
-                                 filter (fun p => negb (present s tr live p)) (snd (snd o))) m in
+    (let dangling := filter (fun p => negb (pmem p inherited)) (dangling_paths live m) in
      match dangling with
      | [] => []
      | _ => ["prop C06 every owned path designates something present in the live object: " ++ show_sexp (enc_paths dangling)]
@@ -220,6 +225,9 @@ Section oracles.
     chk (forallb (fun o : string * (string * bool * list path) =>
                     match snd (snd o) with [] => false | _ => true end) m)
         "prop C06 no manager with an empty record".
+
+  Definition inv_msgs (live : value) (m : list (string * (string * bool * list path))) : list string :=
+    inv_msgs_from [] live m.
 
   (* abandoned q: in the applier's earlier record, not in FS cfg, not in EN(others) *)
   Definition abandoned (last fscfg enothers : pset) (q : path) : bool :=
@@ -272,8 +280,9 @@ Definition apply_oracles (gone : string -> bool) (vers : list string) (ign : str
               "prop C02 only fields of the configuration are added or changed" @@
           (let empty_unowned (q : path) : bool :=
              match resolve_path s tr lv q with
-             | Some (RNode _ (VMap [])) | Some (RNode _ (VList [])) =>
-                 negb (existsb (fun o : string * (string * bool * list path) => pmem q (snd (snd o))) mobs)
+             (* hollow: a null or an empty container, owned or not -- no field set of an
+                object mentions an empty list, so prune cannot see it *)
+             | Some (RNode _ (VMap [])) | Some (RNode _ (VList [])) | Some (RNode _ VNull) => true
              | _ => false
              end in
            let ok (lenient : bool) (p : path) : bool :=
@@ -291,7 +300,7 @@ Definition apply_oracles (gone : string -> bool) (vers : list string) (ign : str
            match bad, worse with
            | [], _ => []
            | _ :: _, [] =>
-               ["prop C02 an empty map or list that no manager owns disappears together with the container emptied around it: "
+               ["prop C02 a null or an empty map or list disappears together with the container emptied around it: "
                   ++ show_sexp (enc_paths bad)]
            | _, _ :: _ =>
                ["prop C02 only abandoned fields (or containers emptied by that, or fields beneath a kind change) are removed: "
@@ -308,6 +317,9 @@ Definition apply_oracles (gone : string -> bool) (vers : list string) (ign : str
                                             negb (rnode_is_leaf s a) ||
                                             existsb (fun q => negb (Nat.eqb (List.length q) (List.length p)) && aband q) (prefixes p)
                                             || existsb (fun q => negb (Nat.eqb (List.length q) (List.length p)) && kind_changed s tr lv cfg q) (prefixes p)
+                                            (* a hollow node that went with its container: reported above (F17) *)
+                                            || (match a with RNode _ (VMap []) | RNode _ (VList []) | RNode _ VNull => true | _ => false end
+                                                && existsb (fun q => negb (Nat.eqb (List.length q) (List.length p)) && pmem q removedp) (prefixes p))
                                         end) (snd (snd o))) mobs)
               "prop C02 fields owned by other managers keep their value"
         else []
@@ -408,8 +420,8 @@ Definition apply_oracles (gone : string -> bool) (vers : list string) (ign : str
                               list at p where the live object holds content that the applier abandons:
                               prune leaves p as a container of nothing a field set can mention and the
                               dangling stage removes it, while the applier's record keeps p *)
-                           let dangling := flat_map (fun o : string * (string * bool * list path) =>
-                                                       filter (fun p => negb (present s tr res p)) (snd (snd o))) m in
+                           let inherited := dangling_paths s tr lv mobs in
+                           let dangling := filter (fun p => negb (pmem p inherited)) (dangling_paths s tr res m) in
                            let empty_in_cfg (p : path) :=
                              match resolve_path s tr cfg p with
                              | Some (RNode _ (VMap [])) | Some (RNode _ (VList [])) => true
@@ -420,10 +432,10 @@ Definition apply_oracles (gone : string -> bool) (vers : list string) (ign : str
                                if forallb (fun p => empty_in_cfg p && present s tr lv p) dangling
                                   && forallb (fun p => pmem p (record_paths m mgr)) dangling
                                then
-                                 filter (fun x => negb (prefix "prop C06 every owned path" x)) (inv_msgs s tr res m) @@
+                                 filter (fun x => negb (prefix "prop C06 every owned path" x)) (inv_msgs_from s tr inherited res m) @@
                                  ["prop C06 an empty map or list of the configuration, laid over content the applier abandons, is owned but absent from the result: " ++ show_sexp (enc_paths dangling)]
-                               else inv_msgs s tr res m
-                           | [] => inv_msgs s tr res m
+                               else inv_msgs_from s tr inherited res m
+                           | [] => inv_msgs_from s tr inherited res m
                            end
                        | _ => []
                        end) [noforce; force]
@@ -604,7 +616,7 @@ Definition run_hist_update (prop : string) (schemas : list (string * schema)) (h
               chk (forallb (fun o : string * (string * bool * list path) => match snd (snd o) with [] => false | _ => true end) mafter)
                   "prop C05 no manager with an empty record remains"
             else if String.eqb prop "C06" then
-              inv_msgs s tr (match ro with Some t => snd t | None => lv end) mafter
+              inv_msgs_from s tr (dangling_paths s tr lv mobs) (match ro with Some t => snd t | None => lv end) mafter
             else if String.eqb prop "C19" then
               let d := ref_diff s tr lv obj in
               let touched := nonroot (rd_modified d ++ rd_added d ++ rd_removed d)%list in
